@@ -76,10 +76,10 @@ pub fn twoway_abstract<const NMAX: usize, const HMAX: usize>(nmin: usize) {
     kani::cover!(skips > (1u32 << 30), "huge skip count (the C14 overflow regime)");
 }
 
-inst!(tw_abstract_3_6, [props=C03+C10+C14 tier=quick cfg=x86std t=1800 role=twoway-abstract-prefilter], 9, twoway_abstract::<3, 6>(2));
-inst!(tw_abstract_2_4_state, [props=C14+C10 tier=quick cfg=x86std t=900 role=prefilter-state-arithmetic], 7, twoway_abstract::<2, 4>(2));
-inst!(tw_abstract_3_7, [props=C03+C10 xprops=C14 tier=thorough cfg=x86std t=3600 role=twoway-abstract-prefilter], 10, twoway_abstract::<3, 7>(3));
-inst!(tw_abstract_4_8, [props=C03+C10 xprops=C14 tier=thorough cfg=x86std t=7200 role=twoway-abstract-prefilter], 11, twoway_abstract::<4, 8>(4));
+inst!(tw_abstract_3_6, [props=C03+C10+C14 tier=quick cfg=x86std t=1800 role=twoway-abstract-prefilter uw=@TW:3:6;twoway_abstract:9;oracle:5], 3, twoway_abstract::<3, 6>(2));
+inst!(tw_abstract_2_4_state, [props=C14+C10 tier=quick cfg=x86std t=900 role=prefilter-state-arithmetic uw=@TW:2:4;twoway_abstract:7;oracle:4], 3, twoway_abstract::<2, 4>(2));
+inst!(tw_abstract_3_7, [props=C03+C10 xprops=C14 tier=thorough cfg=x86std t=3600 role=twoway-abstract-prefilter uw=@TW:3:7;twoway_abstract:10;oracle:5], 3, twoway_abstract::<3, 7>(3));
+inst!(tw_abstract_4_8, [props=C03+C10 xprops=C14 tier=thorough cfg=x86std t=7200 role=twoway-abstract-prefilter uw=@TW:4:8;twoway_abstract:11;oracle:6], 3, twoway_abstract::<4, 8>(4));
 
 // ---------------------------------------------------------------------------
 // C03 / C10: the meta searcher with a nondeterministic ranker
@@ -188,11 +188,11 @@ pub fn long_prefilter_once<const HLEN: usize>(family: u8, mode: u8) {
     kani::cover!(matches!(r, Some(c) if c > 0), "later candidate");
 }
 
-inst!(long_inert_f0_40, [props=C03+C14 tier=quick cfg=x86std t=1800 role=long-needle-route-inert uw=Suffix::forward:70;ApproximateByteSet:35;with_ranker:35;is_equal_raw:10;rabinkarp::Finder::new:35;find_large_imp.0:10;find_large_imp.1:35;find_large_imp.2:35;find_small_imp.0:10;find_small_imp.1:35;find_small_imp.2:35], 4,
+inst!(long_inert_f0_40, [props=C03+C14 tier=quick cfg=x86std t=1800 role=long-needle-route-inert uw=@LONGNEW;find_large_imp.1:10;find_large_imp.3:10;find_large_imp.0:35;find_large_imp.2:35;find_small_imp.2:10;find_small_imp.3:10;find_small_imp.0:35;find_small_imp.1:35;oracle:35], 4,
     long_route::<40>(0, 1, true));
-inst!(long_pre_f3_sse2_40, [props=C11+C05+C14 tier=quick cfg=x86std t=1800 role=long-needle-prefilter-fallback uw=Suffix::forward:70;ApproximateByteSet:35;with_ranker:35;is_equal_raw:10;rabinkarp::Finder::new:35;byte_by_byte:18;One::find_raw.0:6;find_prefilter.0:4;oracle:35], 4,
+inst!(long_pre_f3_sse2_40, [props=C11+C05+C14 tier=quick cfg=x86std t=1800 role=long-needle-prefilter-fallback uw=@LONGNEW;byte_by_byte:18;One::find_raw.0:6;find_prefilter.0:4;oracle:35], 4,
     long_prefilter_once::<40>(3, 1));
-inst!(long_pre_f0_sse2_40, [props=C11+C05 xprops=C14 tier=quick cfg=x86std t=1800 role=long-needle-prefilter-vector uw=Suffix::forward:70;ApproximateByteSet:35;with_ranker:35;is_equal_raw:10;rabinkarp::Finder::new:35;byte_by_byte:18;One::find_raw.0:6;find_prefilter.0:4;oracle:35], 4,
+inst!(long_pre_f0_sse2_40, [props=C11+C05 xprops=C14 tier=quick cfg=x86std t=1800 role=long-needle-prefilter-vector uw=@LONGNEW;byte_by_byte:18;One::find_raw.0:6;find_prefilter.0:4;oracle:35], 4,
     long_prefilter_once::<40>(0, 1));
 
 // ---------------------------------------------------------------------------
@@ -653,11 +653,11 @@ inst!(mm_packed_g4, [props=C05 tier=quick cfg=x86std t=1500 role=mismatched-need
 // C10: nondeterministic ranker x both prefilter settings
 inst!(rank_n2_sse2, [props=C10+C03 xprops=C14 tier=quick cfg=x86std t=1800 role=nondet-ranker-packed uw=@RK;@TWNEW;@TWOFF;with_ranker:6;oracle:6;@PP], 3,
     finder_nondet_ranker::<2, 20>(1, 0, 20));
-inst!(rank_n3_sse2, [props=C10+C03 xprops=C14 tier=quick cfg=x86std t=1800 role=nondet-ranker-packed uw=@RK;@TWNEW;@TWOFF;with_ranker:6;oracle:6;@PP], 3,
+inst!(rank_n3_sse2, [props=C10+C03 xprops=C14 tier=thorough cfg=x86std t=1800 role=nondet-ranker-packed uw=@RK;@TWNEW;@TWOFF;with_ranker:6;oracle:6;@PP], 3,
     finder_nondet_ranker::<3, 20>(1, 0, 20));
 inst!(rank_n4_sse2, [props=C10+C03 xprops=C14 tier=thorough cfg=x86std t=3600 role=nondet-ranker-packed uw=@RK;@TWNEW;@TWOFF;with_ranker:6;oracle:6;@PP], 3,
     finder_nondet_ranker::<4, 22>(1, 0, 22));
 inst!(rank_n2_nosimd_rk, [props=C10+C03 xprops=C14 tier=quick cfg=generic t=1800 role=nondet-ranker-nosimd uw=@RK;@TWNEW;@TWOFF;with_ranker:6;oracle:6;find_prefilter.0:2;@MEMCHR], 3,
-    finder_nondet_ranker::<2, 15>(0, 0, 15));
-inst!(rank_n2_nosimd_tw, [props=C10+C03 xprops=C14 tier=thorough cfg=generic t=7200 role=nondet-ranker-nosimd uw=@RK;@TWNEW;_imp.0:19;_imp.1:4;_imp.2:4;with_ranker:6;oracle:6;find_prefilter.0:19;@MEMCHR], 3,
+    finder_nondet_ranker::<2, 12>(0, 0, 12));
+inst!(rank_n2_nosimd_tw, [props=C10+C03 xprops=C14 tier=thorough cfg=generic t=7200 role=nondet-ranker-nosimd uw=@RK;@TW:2:17;with_ranker:6;oracle:6;find_prefilter.0:19;@MEMCHR], 3,
     finder_nondet_ranker::<2, 17>(0, 16, 17));
